@@ -162,6 +162,43 @@ fn main() {
       let backends = if both { vec![false, true] } else { vec![uring] };
       h::sockscript::run_file(&args[2], &args[3], backends, limit);
     }
+    "hb" => {
+      // vh hb <behaviours.jsonl> <out.json> [--perturb]
+      let beh: Vec<h::hb::Behaviour> = h::util::read_jsonl(&args[2]);
+      let perturb = args.iter().any(|a| a == "--perturb");
+      h::util::quiet_panics();
+      let mut outs = Vec::new();
+      for (i, b) in beh.iter().enumerate() {
+        let o = h::hb::run(i, b, perturb);
+        if !o.issues.is_empty() {
+          outs.push(serde_json::to_value(&o).unwrap());
+        }
+      }
+      h::util::write_json(&args[3], &json!({"runs": beh.len(), "with_issues": outs.len(), "outcomes": outs.into_iter().take(100).collect::<Vec<_>>()}));
+    }
+    "sec" => {
+      // vh sec <behaviours.jsonl> <out.json> [--perturb]
+      let beh: Vec<h::sec::Behaviour> = h::util::read_jsonl(&args[2]);
+      let perturb = args.iter().any(|a| a == "--perturb");
+      let seed = h::util::seed_from_env();
+      h::util::quiet_panics();
+      let mut outs = Vec::new();
+      let mut runs = 0usize;
+      for (i, b) in beh.iter().enumerate() {
+        for e in [h::eng::EncImpl::Curve, h::eng::EncImpl::Noise] {
+          let o = h::sec::run(i, b, e, seed, perturb);
+          runs += 1;
+          if !o.issues.is_empty() {
+            outs.push(serde_json::to_value(&o).unwrap());
+          }
+        }
+      }
+      let mut fresh = Vec::new();
+      for e in [h::eng::EncImpl::Curve, h::eng::EncImpl::Noise] {
+        fresh.extend(h::sec::fresh_per_session(e));
+      }
+      h::util::write_json(&args[3], &json!({"runs": runs, "with_issues": outs.len(), "fresh_issues": fresh, "outcomes": outs.into_iter().take(200).collect::<Vec<_>>()}));
+    }
     other => h::util::tool_error(&format!("unknown subcommand {}", other)),
   }
 }
